@@ -68,12 +68,12 @@ theorem drainSched_shape (n : Nat) (bag : List Ref) :
     (drainSched n bag).length = bag.length + 2 ∧ (drainSched n bag).all loopOnly = true ∧
     ticks (drainSched n bag) = 2 ∧ ((drainSched n bag).filter isNotify).length = bag.length := by
   induction bag with
-  | nil => simp [drainSched, loopOnly, ticks, isTick, isNotify]
+  | nil => exact ⟨rfl, rfl, rfl, rfl⟩
   | cons r rest ih =>
     obtain ⟨h1, h2, h3, h4⟩ := ih
     simp only [ticks] at h3
     refine ⟨by simp [drainSched, h1], by simp [drainSched, loopOnly, h2], ?_, ?_⟩
-    · simp [drainSched, ticks, List.filter_cons, isTick, h3]
+    · simp [drainSched, ticks, isTick, h3]
     · simp [drainSched, List.filter_cons, isNotify, h4]
 
 /-- From EVERY state the schedule `drainSched` runs (no iteration is blocked), is fault-free for every lookupd, and
@@ -91,13 +91,15 @@ theorem drain_runs (a : Nat) : ∀ (bag : List Ref) (s : State), s.bag = bag →
       simp only [step, Option.some.injEq] at h1; subst h1
       simp only [OkFor]
       have hl := length_mapOutcomes (command s.objs s.dead id) s.peers (okOuts s.peers.length)
-      rw [← hl]; exact okOuts_ok a _
+      have := okOuts_ok a (mapOutcomes (command s.objs s.dead id) s.peers (okOuts s.peers.length))
+      rw [hl] at this; exact this
   | cons r rest ih =>
     intro s hb
     have hmem : s.bag.contains r = true := by rw [hb]; simp
-    let s1 : State := { s with bag := s.bag.erase r, peers := mapOutcomes (command s.objs s.dead
-      (if nameLive s.objs s.dead r.topic r.chan then register r.topic r.chan else unregister r.topic r.chan))
-      s.peers (okOuts s.peers.length) }
+    let apply : List Key → List Key :=
+      if nameLive s.objs s.dead r.topic r.chan then register r.topic r.chan else unregister r.topic r.chan
+    let s1 : State :=
+      { s with bag := s.bag.erase r, peers := mapOutcomes (command s.objs s.dead apply) s.peers (okOuts s.peers.length) }
     have hstep : step s (.notify r (okOuts s.peers.length)) = some s1 := by
       simp only [step, hmem, Bool.not_true, Bool.false_eq_true, if_false]; rfl
     have hb1 : s1.bag = rest := by simp [s1, hb]
@@ -138,7 +140,7 @@ def pre : List Step := [.addPeer 0 .ok, .createTopic "t", .createChan "t" "c", .
 example : ((run State.init pre).map (fun s => (s.bag.length, s.peers.map (fun p => (p.conn == .up, p.regs))))) =
     some (2, [(false, [])]) := by decide
 example : ((run State.init pre).map (fun s => drainSched s.peers.length s.bag)) =
-    some [.notify c1 [.ok], .notify t0 [.ok], .tick [.ok], .tick [.ok]] := by decide
+    some [.notify c1 [.ok], .notify t0 [.ok], .tick [.ok], .tick [.ok]] := by rfl
 example : ((run State.init (pre ++ [.notify c1 [.ok], .notify t0 [.ok], .tick [.ok], .tick [.ok]])).map
     (fun s => (s.bag.length, s.peers.map (fun p => (p.conn == .up, p.regs))))) =
     some (0, [(true, [("t", "c"), ("t", "")])]) := by decide
